@@ -16,7 +16,7 @@ MANIFEST = {
 }
 RULE = ("(a) seeded random branch/node tables (1-40 rows) with forced edge rows fed to every twin kernel pair; (b) seeded random "
         "gas/water nets and heating loops solved with both engines (tight tolerances); (c) sequences of 2-4 calls with "
-        "only_update_hydraulic_matrix(+reuse_internal_data) and edited sink loads vs fresh runs; non-trivial = a kernel batch with "
+        "only_update_hydraulic_matrix(+reuse_internal_data) and edited loads (sinks, sources, flow controllers, heat consumers) vs fresh runs, in hydraulics, sequential and bidirectional mode, on nets with valves, pumps / compressors, pressure controllers and heating loops; non-trivial = a kernel batch with "
         ">= 1 edge row class, or a compared pair with >= 20 values; distinct = case hash")
 ASSUMPTIONS = ["a non-converged side is not comparable (counted)"]
 CONFIG = {"quick": {"shards": 8, "timeout_s": 600, "kernel_batches": 200, "nets": 160, "sequences": 80},
@@ -25,8 +25,8 @@ CONFIG = {"quick": {"shards": 8, "timeout_s": 600, "kernel_batches": 200, "nets"
 REQUIRED_COUNTERS = ["kernel_pairs_hydraulic_incomp", "kernel_pairs_hydraulic_comp", "kernel_pairs_lambda", "kernel_pairs_medium_pressure",
                      "kernel_pairs_derived_values", "kernel_pairs_thermal", "kernel_pairs_thermal_transient", "kernel_pairs_grouped_sum", "edge_rows_zero_flow",
                      "edge_rows_equal_pressures", "edge_rows_reverse_flow", "edge_rows_zero_length", "edge_rows_nan_flow",
-                     "engine_pairs_compared", "engine_pairs_thermal", "engine_pairs_gas", "update_sequences_compared",
-                     "update_steps_with_changed_loads"]
+                     "engine_pairs_compared", "engine_pairs_thermal", "engine_pairs_gas", "update_sequences_compared", "update_sequences_hydraulics",
+                     "update_sequences_sequential", "update_sequences_bidirectional", "update_sequences_with_pressure_controller", "update_steps_with_changed_loads"]
 
 
 def gen_cases(tier, seed):
@@ -268,12 +268,24 @@ def run_engines(case, obs):
     return {"net": netgen.spec_summary(spec), "mode": mode, "values_compared": n} if n >= 20 else None
 
 
+LOAD_COLS = [("sink", "mdot_kg_per_s"), ("source", "mdot_kg_per_s"), ("flow_control", "controlled_mdot_kg_per_s"), ("heat_consumer", "controlled_mdot_kg_per_s")]
+
+
 def run_update(case, obs):
     import pandapipes as pp
     rng = rng_for("C07u", case["seed"], case["i"])
-    spec = netgen.gen_hydraulic(rng, fluid=str(rng.choice(["water", "lgas"])), features=[("valves",), ("multi_grid", "mass_storage"), ()][int(rng.integers(3))])
+    thermal = case["i"] % 3 == 2
+    if thermal:
+        spec = netgen.gen_heating(rng, max_sections=2) if rng.random() < 0.6 else netgen.gen_thermal_mesh(rng, two_feeders=bool(rng.random() < 0.3), max_sections=2)
+        mode = str(rng.choice(["sequential", "bidirectional"]))
+    else:
+        fluid = str(rng.choice(["water", "lgas"]))
+        feats = [("valves",), ("multi_grid", "mass_storage"), (), ("press_control", "multi_grid"), ("press_control", "valves", "pi_valves"),
+                 ("pump", "flow_control") if fluid == "water" else ("compressor", "flow_control")][int(rng.integers(6))]
+        spec = netgen.gen_hydraulic(rng, fluid=fluid, features=feats)
+        mode = "hydraulics"
     numba = bool(rng.random() < 0.5)
-    base_opts = dict(netgen.TIGHT, use_numba=numba)
+    base_opts = dict(netgen.TIGHT, use_numba=numba, mode=mode)
     upd = {"only_update_hydraulic_matrix": True, "reuse_internal_data": bool(rng.random() < 0.8)}
     net = netgen.build(spec)
     steps = int(rng.integers(2, 5))
@@ -281,14 +293,15 @@ def run_update(case, obs):
     for k in range(steps):
         if k:
             f = float(rng.uniform(0.3, 1.5))
-            if len(net.sink):
-                net.sink["mdot_kg_per_s"] = net.sink["mdot_kg_per_s"].values * f
+            for t, col in LOAD_COLS:
+                if t in net and len(net[t]):
+                    net[t][col] = net[t][col].values * f
             obs.count("update_steps_with_changed_loads")
         out, _ = run_pipeflow(net, dict(base_opts, **upd))
         ref = netgen.build(spec)
-        for t in ("sink",):
-            if len(net[t]):
-                ref[t]["mdot_kg_per_s"] = netgen.by_name(net, t)["mdot_kg_per_s"].reindex(ref[t]["name"].values).values
+        for t, col in LOAD_COLS:
+            if t in net and len(net[t]):
+                ref[t][col] = netgen.by_name(net, t)[col].reindex(ref[t]["name"].values).values
         rout, _ = run_pipeflow(ref, base_opts)
         if out != rout:
             obs.violate("update_option_changes_outcome", "step %d: %s with matrix update, %s fresh" % (k, out, rout), step=k, options=upd)
@@ -304,6 +317,9 @@ def run_update(case, obs):
                         % (k, upd, len(d), d[0][0], d[0][1], d[0][2], d[0][3]), step=k, options=upd)
             return None
     obs.count("update_sequences_compared")
+    obs.count("update_sequences_" + mode)
+    if any(e["kind"] == "press_control" for e in spec["elements"]):
+        obs.count("update_sequences_with_pressure_controller")
     return {"net": netgen.spec_summary(spec), "steps": steps, "options": upd, "values_compared": total}
 
 
